@@ -551,7 +551,7 @@ def rule_no_shared_state(ctx: Ctx, rid="C17.NO-SHARED-WRITES", modules=None):
     ctx.rep.floor("functions scanned for shared-state writes", nfun, 25 if not modules else 2)
 
 
-def rule_value_keyed_caches(ctx: Ctx, rid="C01.NO-VALUE-KEYED-CACHE", modules=None):
+def rule_value_keyed_caches(ctx: Ctx, rid="C01.NO-VALUE-KEYED-CACHE", modules=None, functions=None):
     """functools caches compare their arguments with == / hash: 1, 1.0 and True (and 0, 0.0, -0.0,
     False; (1, 2) and (1.0, 2.0)) share one slot although str() distinguishes them and their types
     differ.  A cache on a function that can receive such values changes later results; one whose
@@ -561,6 +561,8 @@ def rule_value_keyed_caches(ctx: Ctx, rid="C01.NO-VALUE-KEYED-CACHE", modules=No
         if modules and m.rel not in modules:
             continue
         for fn in [x for x in ast.walk(m.tree) if isinstance(x, (ast.FunctionDef, ast.AsyncFunctionDef))]:
+            if functions is not None and fn.name not in functions:
+                continue
             n += 1
             for d in fn.decorator_list:
                 dn = dotted(d.func) if isinstance(d, ast.Call) else dotted(d)
